@@ -1,0 +1,42 @@
+//  Copyright (c) 2026 Couchbase, Inc.
+//
+// Licensed under the Apache License, Version 2.0 (the "License");
+// you may not use this file except in compliance with the License.
+// You may obtain a copy of the License at
+//
+// 		http://www.apache.org/licenses/LICENSE-2.0
+//
+// Unless required by applicable law or agreed to in writing, software
+// distributed under the License is distributed on an "AS IS" BASIS,
+// WITHOUT WARRANTIES OR CONDITIONS OF ANY KIND, either express or implied.
+// See the License for the specific language governing permissions and
+// limitations under the License.
+
+//go:build verif
+
+package searcher
+
+// Exported views of unexported helpers, compiled only with the `verif` build tag.
+// They add no behaviour: each forwards to the function the searchers use.
+
+// VerifSplitInt64Range returns the (start, end) prefix-coded terms of every
+// range produced by splitInt64Range.
+func VerifSplitInt64Range(minBound, maxBound int64, precisionStep uint) [][2][]byte {
+	trs := splitInt64Range(minBound, maxBound, precisionStep)
+	rv := make([][2][]byte, 0, len(trs))
+	for _, tr := range trs {
+		rv = append(rv, [2][]byte{tr.startTerm, tr.endTerm})
+	}
+	return rv
+}
+
+// VerifIncrementBytes forwards to incrementBytes.
+func VerifIncrementBytes(in []byte) []byte {
+	return incrementBytes(in)
+}
+
+// VerifEnumerateRange forwards to termRange.Enumerate with an optional filter.
+func VerifEnumerateRange(start, end []byte, filter func([]byte) bool) [][]byte {
+	tr := newRangeBytes(start, end)
+	return tr.Enumerate(filterFunc(filter))
+}
